@@ -293,7 +293,11 @@ def periodic_copies():
                 sts = getattr(tr, attr)
                 if sts:
                     committed[(attr, v)] = {(s.Handle if s.is_context_state else s.DescriptorHandle): canon(s, lp.pmdib) for s in sts}
-        properties.strongbind(lp.pmdib, transaction=on_tr)
+        with lp.pmdib.mdib_lock:
+            # commits of the provider's own threads (alert self checks) made before the observer is bound are not
+            # recorded here: entries labelled with a version <= v0 are not compared
+            properties.strongbind(lp.pmdib, transaction=on_tr)
+            v0 = lp.pmdib.mdib_version
         for i in range(25 if tier() == 'quick' else 150):
             h.step(h.rnd.choice(('metric', 'alert', 'component', 'operational', 'context', 'metric', 'alert')))
         for attr, store in stores.items():
@@ -301,7 +305,7 @@ def periodic_copies():
                 cases += 1
                 want = committed.get((attr, entry.mdib_version))
                 if want is None:
-                    if entry.mdib_version > 1:
+                    if entry.mdib_version > v0:
                         bad.append({'key': f'periodic-label:{attr}', 'detail': f'{attr}: stored entry labelled {entry.mdib_version}, no commit of that kind at this version'})
                     continue
                 got = {(s.Handle if s.is_context_state else s.DescriptorHandle): canon(s, lp.pmdib) for s in entry.states}
